@@ -21,13 +21,15 @@ type outer struct {
 var g1 = map[string]int{"a": 1}
 var g2 = &outer{in: inner{a: 1, m: map[string][]int{"x": {1, 2}}}, s: []*inner{{a: 5}}, i: &inner{a: 9}}
 var g3 []string
+var g5 sync.Map
 var g4 float64 = 2.5
 
 func TestSnapshotRestore(t *testing.T) {
 	Globals = nil
-	RegisterGlobals("t", []Global{{"g1", &g1}, {"g2", &g2}, {"g3", &g3}, {"g4", &g4}})
+	RegisterGlobals("t", []Global{{"g1", &g1}, {"g2", &g2}, {"g3", &g3}, {"g4", &g4}, {"g5", &g5}})
 	SnapshotGlobals()
 	h0 := GlobalsHash()
+	g5.Store("k", 1)
 	g1["b"] = 2
 	g2.in.m["x"][0] = 99
 	g2.s[0].a = 6
@@ -41,6 +43,14 @@ func TestSnapshotRestore(t *testing.T) {
 	RestoreGlobals()
 	if GlobalsHash() != h0 {
 		t.Fatal("hash not restored")
+	}
+	if _, ok := g5.Load("k"); ok {
+		t.Fatal("sync.Map not reset")
+	}
+	g5.Store("k2", 2)
+	RestoreGlobals()
+	if _, ok := g5.Load("k2"); ok {
+		t.Fatal("sync.Map not reset the second time")
 	}
 	ran := false
 	g2.once.Do(func() { ran = true })
